@@ -17,6 +17,7 @@
 #define VERIF_OWN_STRLEN
 #define VERIF_OWN_STRCHR
 #define VERIF_OWN_STRDUP
+#define VERIF_OWN_STRCMP
 #include "vprelude.h"
 #include "env_str.h"
 
@@ -25,7 +26,8 @@
 #endif
 #define VCAT3_(a, b, c) a##b##c
 #define VCAT3(a, b, c)  VCAT3_(a, b, c)
-#define VF(name)  VCAT3(spif_, VP, _##name)
+#define VF_(name) VCAT3(spif_, VP, _##name)
+#define VF(name)  VF_(name)
 #define VT        VCAT3(spif_, VP, _t)
 #define VIDX      VCAT3(spif_, VP, idx_t)
 #define VCLASSVAR    VCAT3(spif_, VP, _class)
@@ -55,15 +57,24 @@ size_t vg_a1, vg_a2;
 #define STR_INV_POST(o)   (STR_EMPTY(o) || STR_NONEMPTY_POST(o))
 
 /* behaviours: a unit compiled with -DU_EMPTY / -DU_NONEMPTY restricts `self` to one disjunct */
+/* (size_t) len == vg_l1 / vg_l2 binds a ghost to the entry length: the ghosts are arbitrary, so nothing is
+ * restricted; env_str.h's libc stubs use them as instantiation points of "no NUL before the result". */
 #if defined(U_EMPTY)
 # define STR_SELF_PRE(o) (STR_OBJ(o) && STR_EMPTY(o))
 #elif defined(U_NONEMPTY)
-# define STR_SELF_PRE(o) (STR_OBJ(o) && STR_NONEMPTY_PRE(o, vg_a1))
+# define STR_SELF_PRE(o) (STR_OBJ(o) && STR_NONEMPTY_PRE(o, vg_a1) && (size_t) (o)->len == vg_l1)
 #else
-# define STR_SELF_PRE(o) (STR_OBJ(o) && STR_INV_PRE(o, vg_a1))
+# define STR_SELF_PRE(o) (STR_OBJ(o) && STR_INV_PRE(o, vg_a1) && (size_t) (o)->len == vg_l1)
 #endif
-/* second object argument: NULL is a legal argument of every method that takes one */
-#define STR_OTHER_PRE(o)  ((o) == NULL || (STR_OBJ(o) && STR_INV_PRE(o, vg_a2)))
+/* second object argument: NULL is a legal argument of every method that takes one.
+ * -DU_OTHER_EMPTY: the argument is an object in the (NULL,0,0) state; -DU_OTHER_NONEMPTY: NULL or allocated */
+#if defined(U_OTHER_EMPTY)
+# define STR_OTHER_PRE(o) ((o) != NULL && STR_OBJ(o) && STR_EMPTY(o))
+#elif defined(U_OTHER_NONEMPTY)
+# define STR_OTHER_PRE(o) ((o) == NULL || (STR_OBJ(o) && STR_NONEMPTY_PRE(o, vg_a2) && (size_t) (o)->len == vg_l2))
+#else
+# define STR_OTHER_PRE(o) ((o) == NULL || (STR_OBJ(o) && STR_INV_PRE(o, vg_a2) && (size_t) (o)->len == vg_l2))
+#endif
 
 /* entry-state text byte k of o, for use in ensures of units whose `o` is in the NONEMPTY state
  * (in the empty state there is no old text, the clause is compiled out).  __CPROVER_old cannot track
